@@ -3,7 +3,8 @@
 stdin  {"mode": "translate"}                       -> RESULT <translator output>
 stdin  {"mode": "eval", "preds": [...], "ctors": [...], "ops": [...], "di": [...]}
   preds : [domain_key, cmds, caps, noise_seed]     -> [truth value of every predicate of the domain, in translator order]
-  ctors : [role_id, cmds, caps, dom(bool), noise_seed] -> {"r": "ok"|"false"|exception class, "sent": [domain message names]}
+  ctors : [role_id, cmds, caps, dom(bool), noise_seed, [names of optional constructor parameters to supply]]
+          -> {"r": "ok"|"false"|exception class, "sent": [domain message names]} | {"skip": reason}
   ops   : [op_id, cmds, caps, noise_seed]          -> same, or {"skip": reason} when the connector itself cannot be built
   di    : [[words], [[domain, commands], ...], domain, capmask] -> [has_domain, caps|null, cmds|null, has_domain_cap]
 The real connectors run against a recording interface: a VirtualDevice subclass without
@@ -149,6 +150,37 @@ def op_args(fn, dk):
     return args
 
 
+# ---- optional constructor arguments (supplied by name on request) -------------------------
+def ctor_kwargs(names):
+    """values for optional constructor parameters; unknown names are reported, not guessed"""
+    kw, unknown = {}, []
+    for n in names:
+        if n == "bd_address":
+            kw[n] = "11:22:33:44:55:66"
+        elif n in ("adv_data", "scan_data"):
+            from whad.ble.profile.advdata import AdvDataFieldList, AdvFlagsField
+            kw[n] = AdvDataFieldList(AdvFlagsField())
+        elif n == "profile":
+            from whad.ble.profile import GenericProfile
+            kw[n] = GenericProfile()
+        elif n == "security_database":
+            from whad.ble.stack.smp import CryptographicDatabase
+            kw[n] = CryptographicDatabase()
+        elif n == "public":
+            kw[n] = False
+        elif n == "synchronous":
+            kw[n] = True
+        elif n in ("applications", "profiles"):
+            kw[n] = []
+        else:
+            unknown.append(n)
+    return kw, unknown
+
+
+SUPPLYABLE = ["bd_address", "adv_data", "scan_data", "profile", "security_database", "public", "synchronous",
+              "applications", "profiles"]
+
+
 def main():
     req = json.load(sys.stdin)
     if req.get("mode") == "translate":
@@ -186,12 +218,21 @@ def main():
     # ---- constructors
     roles = {rid: (modname, cname, dk) for rid, modname, cname, dk in T.ROLES}
     rcls = {}
-    for rid, cmds, caps, dom, seed in req.get("ctors", []):
+    for case in req.get("ctors", []):
+        rid, cmds, caps, dom, seed = case[:5]
         modname, cname, dk = roles[rid]
         if rid not in rcls:
             rcls[rid] = getattr(importlib.import_module(modname), cname)
         dev = make_device(RecDevice, dvals[dk], cmds, caps, dom, seed)
-        res["ctors"].append(outcome(lambda: rcls[rid](dev) or True, dev))
+        try:
+            kw, unknown = ctor_kwargs(case[5] if len(case) > 5 else [])
+        except BaseException as e:  # noqa
+            res["ctors"].append({"skip": "args:" + type(e).__name__})
+            continue
+        if unknown:
+            res["ctors"].append({"skip": "no recipe for " + ",".join(unknown)})
+            continue
+        res["ctors"].append(outcome(lambda: rcls[rid](dev, **kw) or True, dev))
     # ---- guarded operations
     ocls = {}
     for oid, cmds, caps, seed in req.get("ops", []):
